@@ -13,7 +13,8 @@
    `python3 tools/gen_c19_sites.py --table` prints this table joined with source lines. *)
 From Coq Require Import List NArith Bool String.
 From V.gen Require Consts DecodeSites.
-From V.C19 Require Model Net.
+From V.common Require Protobuf.
+From V.C19 Require Formats Model Net.
 Import ListNotations.
 Open Scope string_scope.
 Open Scope N_scope.
@@ -251,7 +252,7 @@ Definition table : list ((string * string * N) * cls * N) :=
    (("src/transport/websocket/connection.rs", "accept_connection", 20), H, 23); (* ws_accept: tungstenite HTTP upgrade parser: oracle dictionary kind 8, kind 23 mode 1 *)
    (("src/transport/websocket/connection.rs", "negotiate_connection", 23), H, 21); (* yamux_new: yamux crate: opaque, kind 21 *)
    (("src/transport/websocket/mod.rs", "dial_peer", 3), NW, 0); (* try_from: local socket / error list *)
-   (("src/transport/websocket/mod.rs", "dial_peer", 21), X, 0); (* ws_connect: client side of the HTTP upgrade (response parser) and rustls for wss: not driven *)
+   (("src/transport/websocket/mod.rs", "dial_peer", 21), H, 23); (* ws_connect: tungstenite HTTP upgrade RESPONSE parser (ws:// only; the rustls handshake of wss:// is not driven): oracle dictionary kind 8, kind 23 mode 3 *)
    (("src/transport/websocket/mod.rs", "multiaddr_into_url", 4), X, 0); (* parse: url::Url::parse of a string built from the dialed multiaddr (which may have been learnt from the network): not driven *)
    (("src/transport/websocket/mod.rs", "open", 10), NW, 0); (* with_capacity: local socket / error list *)
    (("src/transport/websocket/stream.rs", "poll_read", 13), M, 23); (* cursor: BufferedStream: C19_ws_total, C19_ws_delivered_bounded, C19_ws_oversized_checked_first, C19_ws_roundtrip *)
@@ -304,5 +305,13 @@ Lemma yamux_credit_tie : Model.YAMUX_DEFAULT_CREDIT = DecodeSites.YAMUX_DEFAULT_
 Proof. reflexivity. Qed.
 Lemma snow_maxmsglen_tie : DecodeSites.SNOW_MAXMSGLEN = 65535.
 Proof. reflexivity. Qed.
+Lemma prost_recursion_tie : Protobuf.RECURSION_LIMIT = DecodeSites.PROST_RECURSION_LIMIT.
+Proof. reflexivity. Qed.
+(* the multiaddr protocol table of Formats.v lists exactly the codes of the vendored crate *)
+Lemma maddr_codes_match :
+  forallb (fun c => mem c DecodeSites.maddr_codes) (map fst Formats.proto_table) &&
+  forallb (fun c => mem c (map fst Formats.proto_table)) DecodeSites.maddr_codes &&
+  Nat.eqb (List.length Formats.proto_table) (List.length DecodeSites.maddr_codes) = true.
+Proof. vm_compute. reflexivity. Qed.
 Lemma ws_limits_tie : Net.WS_MAX_FRAME = 16777216 /\ Net.WS_MAX_MESSAGE = 67108864.
 Proof. split; reflexivity. Qed.
